@@ -236,6 +236,7 @@ Definition g_locate (v : val) : option (outcome (N * N)) :=
   match v with
   | VL [VT "ok"; VZ a; VZ b] => Some (Ok (Z.to_N a, Z.to_N b))
   | VT "IOErr" => Some IOErr
+  | VL [VT "Crash"; VT "IndexError"] => Some (Crash IndexError)
   | VL [VT "Crash"; VT k] => Some (Crash (g_crash k))
   | _ => None end.
 
@@ -348,15 +349,15 @@ Definition d_c12 (opn : string) (a : val) : option val :=
                 VL [v_outcome vbool (fst (hrun blob srv 0 p)); VL (map v_req (htrace blob srv 0 p))]
             | _, _, _ => bad end)
   (* HttpShard construction + fetch_cmc_chunk (raw encodings) *)
-  | "hs_fetch", VL [sc; scr; t; fixed; VS scale_url; VS shard_name; VZ hl; VZ cmc; loc] =>
-      Some (match g_scfg sc, g_scripts scr, g_fs t, getB fixed, g_locate loc with
-            | Some sc, Some scr, Some t, Some fixed, Some loc =>
+  | "hs_fetch", VL [sc; scr; t; VS scale_url; VS shard_name; VZ hl; VZ cmc; loc] =>
+      Some (match g_scfg sc, g_scripts scr, g_fs t, g_locate loc with
+            | Some sc, Some scr, Some t, Some loc =>
                 let p := hs_fetch blob BPlain (blob_gunzip []) blob_unplain (fun b => Some b)
                            (fun _ _ => loc) (fun b => Ok b)
-                           fixed scale_url shard_name (Z.to_N hl) (Z.to_N cmc) in
+                           scale_url shard_name (Z.to_N hl) (Z.to_N cmc) in
                 let srv := scripted sc t scr in
                 VL [v_bout (fst (hrun blob srv 0 p)); VL (map v_req (htrace blob srv 0 p))]
-            | _, _, _, _, _ => bad end)
+            | _, _, _, _ => bad end)
   (* faults and crash cuts *)
   | "fa_fault", VL [c; tb; t; o; VZ k; e] =>
       Some (match g_cfg c, g_gztable tb, g_fs t, g_op o, g_errno e with
